@@ -168,6 +168,7 @@ type Exit struct {
 
 // Frame is one function activation (the root or an inlined callee/closure).
 type Frame struct {
+	cbStart  *Term // callback frames: the allocation watermark before the callee allocated this invocation's arguments
 	u        *Unit
 	fn       *ssa.Function
 	key      string
